@@ -161,8 +161,12 @@ func (s *Scenario) addKeyManager(rng *rand.Rand, profile string) {
 	}
 	id := common.NewTestNamespaceFromSeed(append([]byte("verif chainsim key manager "), seed[:]...), common.NamespaceKeyManager)
 
-	// The key manager is owned by one of the first two genesis entities (never slashed).
+	// The key manager is owned by one of the first two genesis entities (never slashed) or by the third
+	// one, whose escrow can fall below its stake claims (suspension of the key manager runtime).
 	ownerIdx := rng.IntN(2)
+	if rng.IntN(4) == 0 {
+		ownerIdx = 2
+	}
 	s.KMOwner = s.Entities[ownerIdx]
 	rt := &registry.Runtime{
 		Versioned:       cbor.NewVersioned(registry.LatestRuntimeDescriptorVersion),
